@@ -27,6 +27,7 @@ func c09(r *core.Report) {
 	c09QueryCut(r)
 	c09BaseTrim(r)
 	c09MuxEncoded(r)
+	c09VarCount(r)
 	c09VarNames(r)
 	c09EveryServer(r)
 	c09ParamPrecedence(r)
